@@ -226,7 +226,7 @@ def run_vector(tier, seed, report):
     return n_eval
 
 
-def run(chk, tier, seed, only=None):
+def run(chk, tier, seed, only=None, pid="C17"):
     results = []
 
     def report(clause, ok, detail):
@@ -237,7 +237,7 @@ def run(chk, tier, seed, only=None):
     if only in (None, "vector"):
         n += run_vector(tier, seed, report)
     for clause, ok, detail in results:
-        name = "C17/bounded/" + clause
+        name = pid + "/bounded/" + clause
         if ok:
             chk.add(Ob(name, DISCHARGED, kind="bounded", backend="runtime-contract", detail=detail))
         else:
@@ -245,7 +245,7 @@ def run(chk, tier, seed, only=None):
                     "violated = any(not ok for c, ok, d in res if c == {!r})\n").format(tier, seed, clause)
             chk.add(Ob(name, FAILED, kind="bounded", backend="runtime-contract", detail=detail,
                        replay=dict(code=code, confirmed=True, raises_is_violation=True)))
-    chk.add_bounded("C17 assembly paths / cache faults", n, len(results),
+    chk.add_bounded(pid + " assembly paths / cache faults", n, len(results),
                     "1 unit-square mesh (+pi square for key separation), 5 sub-list shapes on both sides of N*M=100, "
                     "workers {}, fault classes {}".format("{1,2,3,16}" if tier == "quick" else "1..16", FAULTS),
                     "every (path, list shape, worker count, fault class) once; bitwise comparison with pairwise evaluation",
